@@ -194,8 +194,19 @@ def xkernOp (req : Json) : R Reply := do
     let keys ← asList asKey (← field obs "reach")
     return { model := Json.mkObj [("fails", listJ keyJ (xFailures d keys))], holds := holdsX d keys }
 
+/-- op "varpairs": the pair universe of `KernFeatureWriter.getVariableKerningPairs` -/
+def varpairsOp (req : Json) : R Reply := do
+  let i ← field req "in"
+  let srcs ← asList (fun j => do
+    let p ← asPair asBool (asList (asPair asStr asStr)) j
+    return ({ layer := p.1, pairs := p.2 } : KSrc)) (← field i "sources")
+  let known ← asList asStr (← field i "known")
+  let obs ← asList (asPair asStr asStr) (← field req "obs")
+  return { model := listJ (pairJ Json.str Json.str) (varKeys srcs known), holds := holdsVarPairs srcs known obs }
+
 def handle (op : String) (req : Json) : R Reply :=
   match op with
+  | "varpairs" => varpairsOp req
   | "merge" => mergeOp req
   | "xkern" => xkernOp req
   | "extrasubs" => extrasubs req
